@@ -135,6 +135,29 @@ Theorem recv_all_fragmentation_any_order :
     concat chunks = concat frames -> recv_msgs chunks = map Some msgs.
 Proof. exact FramingP.recv_all_fragmentation_any_order. Qed.
 
+(* Readers may report an error TOGETHER with data (io.Reader contract: n > 0 and io.EOF with
+   the final bytes — iotest.DataErrReader, decompressors, HTTP/TLS bodies — or any other
+   error).  A reader is a list of chunks each carrying the error reported by the Read that
+   exhausts it; io.ReadFull counts a Read that completes the buffer whatever it reports.
+   For every fragmentation whose reader reports an error at most with its last chunk
+   (tail_flagged), nothing is lost and the stream ends cleanly. *)
+Theorem recv_all_fragmentation_x :
+  forall msgs chunks, Forall sendable msgs -> tail_flagged chunks ->
+    xdata chunks = concat (map send_msg msgs) -> recv_msgs_x chunks = map Some msgs.
+Proof. exact FramingP.recv_all_fragmentation_x. Qed.
+
+Theorem recv_all_fragmentation_x_any_order :
+  forall msgs frames chunks, Forall sendable msgs -> Forall2 frame_of msgs frames -> tail_flagged chunks ->
+    xdata chunks = concat frames -> recv_msgs_x chunks = map Some msgs.
+Proof. exact FramingP.recv_all_fragmentation_x_any_order. Qed.
+
+(* The extended reader model is conservative: on readers that never report an error with
+   data it is the chunk-list model of recv_all_fragmentation (the correspondence run executes
+   recv_msgs_x). *)
+Theorem recv_msgs_quiet :
+  forall chunks, recv_msgs_x (quiet chunks) = recv_msgs chunks.
+Proof. exact FramingP.recv_msgs_quiet. Qed.
+
 (* ---- buffer.go ------------------------------------------------------------------------- *)
 
 (* WriteTo of the chunked buffer emits exactly the records in allocation order, for records
@@ -183,6 +206,9 @@ Print Assumptions generic_agrees.
 Print Assumptions generic_agrees_refuted.
 Print Assumptions recv_all_fragmentation.
 Print Assumptions recv_all_fragmentation_any_order.
+Print Assumptions recv_all_fragmentation_x.
+Print Assumptions recv_all_fragmentation_x_any_order.
+Print Assumptions recv_msgs_quiet.
 Print Assumptions buffer_is_concat.
 Print Assumptions buffer_chunks_fit.
 Print Assumptions listing_roundtrip.
@@ -255,6 +281,32 @@ Example ex_fragmentation_1byte :
 Proof.
   split; [repeat constructor|]. vm_compute. split; reflexivity.
 Qed.
+
+(* readers that report errors with data: io.EOF with the final byte of 1-byte reads loses
+   nothing; errors on Reads that complete a header / body are dropped; an error before a
+   buffer is complete fails the call; (0, io.EOF) between frames ends the stream cleanly *)
+Definition ex_last_eof (cs : list bytes) : list (bytes * rerr) :=
+  match rev cs with
+  | [] => []
+  | c :: r => quiet (rev r) ++ [(c, REof)]
+  end.
+Example ex_reader_errors_with_data :
+  let p3 := {| ptype := 2; pstat := None; pid := 7; pdata := [1; 2; 3; 4; 5] |} in
+  recv_msgs_x (ex_last_eof (map (fun b => [b]) ex_stream)) = map Some ex_msgs /\
+  recv_msgs_x [(ex_stream, REof)] = map Some ex_msgs /\
+  recv_msgs_x [(ex_stream, RErr)] = map Some ex_msgs /\
+  recv_msgs_x [(send_msg ex_packet ++ send_msg empty_packet, REof)] = [Some ex_packet; Some empty_packet] /\
+  (* every piece ends at a header end or a body end and reports an error *)
+  recv_msgs_x [(firstn 4 (send_msg p3), RErr); (skipn 4 (send_msg p3), REof);
+               (send_msg empty_packet, RErr); (firstn 4 (send_msg p3), REof); (skipn 4 (send_msg p3), RErr)]
+    = [Some p3; Some empty_packet; Some p3] /\
+  (* an error one byte before the body is complete *)
+  recv_msgs_x [(firstn 10 (send_msg p3), RErr); (skipn 10 (send_msg p3), RNone)] = [None] /\
+  recv_msgs_x [(firstn 10 (send_msg p3), REof); (skipn 10 (send_msg p3), RNone)] = [None] /\
+  (* (0, io.EOF) between two frames: clean end, the second frame is never read *)
+  recv_msgs_x [(send_msg p3, RNone); ([], REof); (send_msg p3, RNone)] = [Some p3] /\
+  recv_msgs_x [(send_msg p3, RNone); ([], RErr); (send_msg p3, RNone)] = [Some p3; None].
+Proof. vm_compute. repeat split; reflexivity. Qed.
 
 (* a truncated stream ends with an error item, never with a wrong packet *)
 Example ex_truncated :
